@@ -246,6 +246,9 @@ def fn_proj3d(spec, rec):
     rs = spec["roi"]
     M = np.array(spec["matrix"], dtype=float)
     pts = np.array(spec["pts"], dtype=float).reshape(-1, 3)
+    intcol = spec.get("intcol")            # one coordinate given as an integer array (e.g. an integer column), the others as floats
+    if intcol is not None and len(pts):
+        pts[:, intcol] = np.round(pts[:, intcol])
     shape3 = spec.get("shape")
     x, y, z = pts[:, 0], pts[:, 1], pts[:, 2]
     h = M @ np.vstack([x, y, z, np.ones_like(x)])
@@ -269,6 +272,10 @@ def fn_proj3d(spec, rec):
             X, Y, Z = x.reshape(shape3), y.reshape(shape3), z.reshape(shape3)
         else:
             X, Y, Z = x, y, z
+        if intcol is not None:
+            cols = [X, Y, Z]
+            cols[intcol] = cols[intcol].astype(np.int64)
+            X, Y, Z = cols
         got = np.asarray(roi.contains3d(X, Y, Z))
         if got.shape != X.shape:
             raise Mismatch("proj3d/shape", {"got": list(got.shape)})
@@ -405,7 +412,8 @@ def proj_cases(draw):
     if n % 2 == 0 and draw(st.booleans()):
         shape = [2, n // 2]
     move = draw(st.one_of(st.none(), st.tuples(st.sampled_from([-1.5, -0.25, 0.0, 0.5, 2.0]), st.sampled_from([-1.0, 0.0, 0.75, 3.0])).map(list)))
-    return {"roi": rs, "matrix": M, "pts": pts, "shape": shape, "chunk": draw(st.sampled_from([None, 1, 2, 3, 7, 16])), "move": move}
+    return {"roi": rs, "matrix": M, "pts": pts, "shape": shape, "chunk": draw(st.sampled_from([None, 1, 2, 3, 7, 16])), "move": move,
+            "intcol": draw(st.sampled_from([None, None, 0, 1, 2]))}
 
 
 @st.composite
